@@ -852,6 +852,18 @@ def judge_c02(r, site, starts, opts, out, rows, own_hosts=None, phase=''):
         if rec is not None and rec.get('item_run') is not None and canon(e['url']) == canon(rec['url']):
             runs.setdefault(canon(rec['url']), set()).add(rec['item_run'])
     tries = opts.get('tries') or 20
+    # one try is one request for the item's own URL (these sites ask for no login, and no redirect leads back to its source)
+    per_run = {}
+    for e in server.log:
+        rec = e['rec']
+        if rec is not None and rec.get('item_run') is not None and canon(e['url']) == canon(rec['url']) and e['target'] != '/robots.txt':
+            per_run[(canon(rec['url']), rec['item_run'])] = per_run.get((canon(rec['url']), rec['item_run']), 0) + 1
+    for (u, run_no), n in per_run.items():
+        if n > 1:
+            r.violate(P, 'out-of-scope-request', 'first-request:tries:request-repeated-within-one-try' + (':resumed' if phase else ''),
+                      '%s was requested %d times within one try (item run %r): the retry limit counts tries, so the URL is requested more often than --tries %r allows%s'
+                      % (u, n, run_no, tries, phase))
+            break
     for u, ss in runs.items():
         if len(ss) > tries:
             r.violate(P, 'out-of-scope-request', 'first-request:tries:counted-by-item-runs' + (':resumed' if phase else ''),
@@ -1042,12 +1054,17 @@ def run(tape, prop, tier):
             for res, n in flaky:
                 state = {'left': n}
 
-                def beh(conn, entry, rs, state=state):
+                def beh(conn, entry, rs, state=state, how=tape.choice(('503', '503', 'drop'), 'site.flaky.how')):
                     if state['left'] > 0:
                         state['left'] -= 1
-                        r.faults['http_5xx'] += 1
                         r.probes['retry'] += 1
-                        server.send(conn, 503, 'Busy', [('Content-Type', 'text/plain')], b'busy')
+                        if how == 'drop':
+                            # the request is read, then the connection is dropped before a single byte of an answer
+                            r.faults['http_dropped_before_answer'] += 1
+                            conn.reset()
+                        else:
+                            r.faults['http_5xx'] += 1
+                            server.send(conn, 503, 'Busy', [('Content-Type', 'text/plain')], b'busy')
                     else:
                         server.respond_resource(conn, rs, entry)
                 server.behaviour[(res.origin.key(), res.target)] = beh
